@@ -275,27 +275,6 @@ func RunHarness(h *Harness, opt *Options) (*Result, error) {
 							}
 						}
 					}
-					if !vr.Reproduced && len(v.Sched) > 0 {
-						// the window is too narrow for the free-running scheduler: force the recorded schedule
-						fc := vr.Case
-						fc.Sched = v.Sched
-						if outs3, err := NativeReplay(opt, h.Pkg, instrumentedOverlay(opt.Repo, l.ov), []NativeCase{fc, fc, fc}); err == nil {
-							for _, o3 := range outs3 {
-								for _, f := range o3.Fails {
-									if labelOf(f) == v.Label {
-										vr.Reproduced = true
-										vr.Forced = true
-										vr.Case = fc
-									}
-								}
-								if !vr.Reproduced {
-									vr.Native = &NativeOut{Outcome: o3.Outcome, Fails: o3.Fails, Obs: o3.Obs, Panic: o3.Panic}
-								}
-							}
-						} else {
-							vr.Native = &NativeOut{Outcome: "forced-replay-error", Panic: err.Error()}
-						}
-					}
 				} else if strings.HasPrefix(v.Label, "write-to-frozen:") || v.Label == "deadlock" || strings.HasPrefix(v.Label, "fault:") {
 					// engine-only monitors: not observable natively; reproduced if the native run follows the same path without diverging
 					vr.Reproduced = o.Outcome == "ok" || o.Outcome == "fail"
@@ -305,6 +284,33 @@ func RunHarness(h *Harness, opt *Options) (*Result, error) {
 							vr.Reproduced = true
 						}
 					}
+				}
+			}
+			if !vr.Reproduced && len(v.Sched) > 0 && !strings.HasPrefix(v.Label, "race:") {
+				// The violation was found on a path with several goroutines and the
+				// free-running native run did not show it: the window may be too narrow
+				// for the host scheduler. Force the recorded schedule on an instrumented build.
+				fc := vr.Case
+				fc.Sched = v.Sched
+				if outs3, err := NativeReplay(opt, h.Pkg, instrumentedOverlay(opt.Repo, l.ov), []NativeCase{fc, fc, fc}); err == nil {
+					for _, o3 := range outs3 {
+						hit := false
+						if v.Kind == "panic" {
+							hit = o3.Outcome == "panic"
+						}
+						for _, f := range o3.Fails {
+							if labelOf(f) == v.Label {
+								hit = true
+							}
+						}
+						if hit {
+							vr.Reproduced, vr.Forced, vr.Case = true, true, fc
+						} else if !vr.Reproduced {
+							vr.Native = &NativeOut{Outcome: o3.Outcome, Fails: o3.Fails, Obs: o3.Obs, Panic: o3.Panic}
+						}
+					}
+				} else {
+					vr.Native = &NativeOut{Outcome: "forced-replay-error", Panic: err.Error()}
 				}
 			}
 			res.Violations = append(res.Violations, vr)
